@@ -1337,7 +1337,9 @@ func (f *Flooder) verifySleepCommand(cmd *protocol.SleepCommand) error {
 	if timeDiff < 0 {
 		timeDiff = -timeDiff
 	}
-	if timeDiff > f.timestampWindow {
+	// time.Since saturates for instants centuries away and negating the
+	// minimum duration overflows back to it: still negative means out of range.
+	if timeDiff < 0 || timeDiff > f.timestampWindow {
 		return fmt.Errorf("timestamp outside validity window (%v old, max %v)", timeDiff, f.timestampWindow)
 	}
 
@@ -1368,7 +1370,9 @@ func (f *Flooder) verifyWakeCommand(cmd *protocol.WakeCommand) error {
 	if timeDiff < 0 {
 		timeDiff = -timeDiff
 	}
-	if timeDiff > f.timestampWindow {
+	// time.Since saturates for instants centuries away and negating the
+	// minimum duration overflows back to it: still negative means out of range.
+	if timeDiff < 0 || timeDiff > f.timestampWindow {
 		return fmt.Errorf("timestamp outside validity window (%v old, max %v)", timeDiff, f.timestampWindow)
 	}
 
